@@ -2,7 +2,9 @@
 //! Model built from the crate's own captures_iter plus the replacer's own output.
 use crate::ast::{GroupStyle, RefStyle, Style};
 use crate::common::*;
+use crate::diff;
 use crate::gen;
+use crate::refm;
 use crate::spaces;
 use fancy_regex::{Captures, NoExpand, Regex};
 use serde_json::json;
@@ -93,6 +95,44 @@ fn one(re: &Regex, t: &str, bound: usize) -> Result<(bool, bool), (String, Strin
             chk(&format!("try_replacen({}, {:?})", n, tpl), re.try_replacen(t, n, tpl), &want)?;
         }
         let k = if n == 0 { caps.len() } else { n.min(caps.len()) };
+        // replacers with state: the i-th replaced match gets the output of the i-th call, and the
+        // calls see the matches in text order
+        let mut j = 0;
+        let want = model(t, &caps, n, &mut |_| {
+            j += 1;
+            format!("#{}", j)
+        });
+        let mut j = 0;
+        let mut seen: Vec<(usize, usize)> = vec![];
+        let got = re.try_replacen(t, n, |c: &Captures<'_>| {
+            j += 1;
+            seen.push(span_of(&c.get(0).unwrap()));
+            format!("#{}", j)
+        });
+        chk(&format!("try_replacen({}, counting closure)", n), got, &want)?;
+        if seen != spans[..k] {
+            return Err((format!("try_replacen({}, recording closure)", n), format!("called for {:?} in this order", &spans[..k]), format!("called for {:?}", seen)));
+        }
+        // a hand-written Replacer that appends in two steps
+        struct Two(usize);
+        impl fancy_regex::Replacer for Two {
+            fn replace_append(&mut self, caps: &Captures<'_>, dst: &mut String) {
+                self.0 += 1;
+                dst.push('<');
+                dst.push_str(&caps[0]);
+                dst.push_str(&format!(">{}", self.0));
+            }
+        }
+        let mut j = 0;
+        let want = model(t, &caps, n, &mut |c| {
+            j += 1;
+            format!("<{}>{}", &c[0], j)
+        });
+        let mut two = Two(0);
+        chk(&format!("try_replacen({}, custom Replacer by_ref)", n), re.try_replacen(t, n, fancy_regex::Replacer::by_ref(&mut two)), &want)?;
+        if two.0 != k {
+            return Err((format!("try_replacen({}, custom Replacer by_ref)", n), format!("{} calls", k), format!("{} calls", two.0)));
+        }
         nontrivial |= (k >= 1 && k < caps.len()) || spans[..k].iter().any(|(a, b)| a == b);
     }
     // the convenience wrappers
@@ -108,6 +148,47 @@ fn one(re: &Regex, t: &str, bound: usize) -> Result<(bool, bool), (String, Strin
         return Err(("replacen(2)".into(), model(t, &caps, 2, &mut |_| "<>".to_string()), re.replacen(t, 2, "<>").into_owned()));
     }
     Ok((nontrivial, false))
+}
+
+/// `[$1|$2]` through a template and through a closure against the reference matcher's groups.
+/// None = agreement or nothing to judge (spans differ: C08's business; reference inconclusive).
+fn reference_groups(re: &Regex, r: &refm::R, ng: usize, t: &str) -> Option<(String, String, String)> {
+    let bound = t.chars().count() + 4;
+    let want_caps = refm::iterate(r, ng, t, refm::BUDGET, bound)?;
+    let spans = match find_iter_seq(re, t, bound) {
+        Got::Val(v) => v,
+        _ => return None,
+    };
+    let want_spans: Vec<Result<(usize, usize), String>> = want_caps.iter().map(|c| Ok(c[0].unwrap())).collect();
+    if spans != want_spans {
+        return None;
+    }
+    let build = |unset: &str| -> String {
+        let grp = |c: &refm::Caps, i: usize| -> String { c.get(i).copied().flatten().map_or(unset.to_string(), |(a, b)| format!("{}", &t[a..b])) };
+        let mut want = String::new();
+        let mut last = 0;
+        for c in &want_caps {
+            let (a, b) = c[0].unwrap();
+            want.push_str(&t[last..a]);
+            want.push_str(&format!("[{}|{}]", grp(c, 1), grp(c, 2)));
+            last = b;
+        }
+        want.push_str(&t[last..]);
+        want
+    };
+    let (want, want_marked) = (build(""), build("-"));
+    let by_template = guard_plain(|| re.try_replacen(t, 0, "[$1|$2]").map(|c| c.into_owned()).map_err(|e| err_kind(&e)));
+    let by_closure = guard_plain(|| {
+        re.try_replacen(t, 0, |c: &Captures<'_>| format!("[{}|{}]", c.get(1).map_or("-", |m| m.as_str()), c.get(2).map_or("-", |m| m.as_str()))).map(|c| c.into_owned()).map_err(|e| err_kind(&e))
+    });
+    for (api, got, want) in [("try_replacen(0, \"[$1|$2]\")", by_template, want), ("try_replacen(0, closure printing groups 1 and 2, `-` for a group that did not take part)", by_closure, want_marked)] {
+        match got {
+            Got::Val(Ok(g)) if g == want => {}
+            Got::StepCap => return None,
+            o => return Some((api.to_string(), format!("{:?} (groups of the reference match path)", want), o.show())),
+        }
+    }
+    None
 }
 
 pub fn run(ctx: &Ctx) -> Outcome {
@@ -145,8 +226,22 @@ pub fn run(ctx: &Ctx) -> Outcome {
                 res.push(r);
             }
         }
+        // the captures handed to the replacer, judged independently of the crate: the reference
+        // matcher's groups for the same matches (patterns with reference semantics only)
+        let rfm = if diff::default_exclude(p).is_none() && !p.has_f1() && !p.has_keepout_in_lookbehind() && p.n_groups() >= 1 { refm::compile(p) } else { None };
         let mut nontrivial = false;
         for t in &texts {
+            if let Some((r, ng)) = &rfm {
+                let _ = acc.take_hooks();
+                if let Some((api, want, got)) = reference_groups(&res[0], r, *ng, t) {
+                    let h = acc.take_hooks();
+                    if h.aux_mismatch > 0 && ctx.known.listed("C15", "FJ") {
+                        acc.count("reference-groups:attributed-to-FJ");
+                    } else {
+                        acc.violate(Violation::new("C11", "replacer-sees-reference-captures", &s, t, 0, &api, want, got));
+                    }
+                }
+            }
             for (k, re) in res.iter().enumerate() {
                 if k > 0 && !rt.is_vm() {
                     break;
@@ -180,7 +275,7 @@ pub fn run(ctx: &Ctx) -> Outcome {
     });
     let mut out = Outcome::new(acc);
     out.distinct_nontrivial = out.acc.distinct;
-    out.rule = format!("{} + \\G/\\K variants of the small trees, every second pattern spelled with named groups; x all {} texts over {{a,b,c,é,\\n,-}} up to length 3 x limits 0..3 x replacers {{\"<>\" as &str / String / NoExpand / closure, identity closure, NoExpand(\"$1\"), templates $0 [$1] ${{g1}} $$ $2-$1}}: result = text with the first n captures_iter matches replaced by the replacer's own output (Captures::expand for templates), other bytes untouched; Cow::Borrowed iff no match; the three spellings of a constant agree (fast path vs captures path); under backtrack limits 0 and 2 a search error among the matches to be replaced must come back as Err, and the calls return, never panic. Non-trivial: distinct patterns where >= 1 but not all matches were replaced, or an empty match was replaced.", sp.describe, texts.len());
+    out.rule = format!("{} + \\G/\\K variants of the small trees, every second pattern spelled with named groups; x all {} texts over {{a,b,c,é,\\n,-}} up to length 3 x limits 0..3 x replacers {{\"<>\" as &str / String / NoExpand / closure, identity closure, NoExpand(\"$1\"), templates $0 [$1] ${{g1}} $$ $2-$1}}: result = text with the first n captures_iter matches replaced by the replacer's own output (Captures::expand for templates), other bytes untouched; Cow::Borrowed iff no match; the three spellings of a constant agree (fast path vs captures path); replacers with state (counting closure, recording closure, hand-written Replacer through by_ref): the i-th replaced match gets the i-th call's output and the calls see the matches in text order; for patterns with reference semantics and groups the output of \"[$1|$2]\" as template and as closure must show the groups of the reference matcher's path for every match; under backtrack limits 0 and 2 a search error among the matches to be replaced must come back as Err, and the calls return, never panic. Non-trivial: distinct patterns where >= 1 but not all matches were replaced, or an empty match was replaced.", sp.describe, texts.len());
     out.assumptions = vec!["template expansion itself is judged by C12; find_iter by C08".into()];
     let eh = out.acc.get("error-histories");
     out.extra = json!({"error_histories": eh});
